@@ -339,8 +339,7 @@ def markers(ctx, report, folder):
                  {"detect": ok, "writer": [short(f) for f in first]}, "3")
     # SRT: first line a number, second contains the arrow
     srt = idx.get_function("pycaption/srt.py", "SRTWriter._recreate_lang")
-    t = src(srt.node)
-    ok = "srt += f'{count}\\n'" in t and re.search(r"count = 1\b", t) is not None and " --> " in t
+    ok = _srt_first_index(srt) == 1
     sdt = src(det["SRTReader"].node)
     ok2 = ".isdigit()" in sdt and "'-->' in" in sdt
     report.check(ok and ok2, "R-MARKER", srt, "SRT output starts with the index line '1' followed by an arrow line",
@@ -366,3 +365,44 @@ def markers(ctx, report, folder):
                  "every document MicroDVDWriter can produce (first line {n}{n}text, text possibly empty) is accepted",
                  {"pattern": u.pattern, "applied_with": u.method,
                   **({"shortest_unrecognised_output": w} if w is not None else {})}, "3")
+
+
+def _srt_first_index(srt):
+    """The number printed on the first index line of SRT output: the emission loop prints a
+    counter (alone on its line) before the arrow line; the counter's first value is its
+    initialisation (`c = K` + increment in the loop) or the `start` of enumerate()."""
+    from ..core.astutil import template_holes
+    loops = [n for n in walk_no_nested(srt.node) if isinstance(n, ast.For) and " --> " in src(n)]
+    if len(loops) != 1:
+        raise AnalysisError(f"SRTWriter._recreate_lang: emission loop not recognised ({len(loops)} candidates)")
+    lp = loops[0]
+    counter = None
+    arrow_seen = False
+    for n in walk_no_nested(lp):
+        th = template_holes(n) if isinstance(n, (ast.JoinedStr, ast.Call, ast.BinOp)) else None
+        if th is None:
+            continue
+        lits, holes = th
+        if "-->" in lits:
+            arrow_seen = True
+        elif lits.strip(" ") == "\n" and len(holes) == 1 and isinstance(holes[0], ast.Name) and not arrow_seen \
+                and counter is None:
+            counter = holes[0].id
+    if counter is None:
+        raise AnalysisError("SRTWriter._recreate_lang: index line (a counter alone on its line, before the arrow line) not found")
+    # (b) enumerate
+    if isinstance(lp.target, ast.Tuple) and isinstance(lp.iter, ast.Call) and call_name(lp.iter) == "enumerate" \
+            and isinstance(lp.target.elts[0], ast.Name) and lp.target.elts[0].id == counter:
+        k = lp.iter.args[1] if len(lp.iter.args) > 1 else next((kw.value for kw in lp.iter.keywords if kw.arg == "start"), None)
+        if k is None:
+            return 0
+        if isinstance(k, ast.Constant) and isinstance(k.value, int):
+            return k.value
+        raise AnalysisError("SRTWriter._recreate_lang: enumerate start is not a literal")
+    # (a) explicit counter
+    inits = [n for n in walk_no_nested(srt.node) if isinstance(n, ast.Assign) and len(n.targets) == 1
+             and src(n.targets[0]) == counter and n.lineno < lp.lineno]
+    incs = [n for n in walk_no_nested(lp) if isinstance(n, ast.AugAssign) and src(n.target) == counter]
+    if len(inits) != 1 or not isinstance(inits[0].value, ast.Constant) or not incs:
+        raise AnalysisError("SRTWriter._recreate_lang: counter initialisation / increment not recognised")
+    return inits[0].value.value
